@@ -323,6 +323,10 @@ def evaluate(root, env, exact=True, approx=False):
     return evaluate_all([root], env, approx)[0][root.id]
 
 
+import math as _math
+_REAL_FUNCS = {'exp': _math.exp}     # the only function whose axioms (exp > 0, exp(x) exp(-x) = 1) an arbitrary interpretation cannot satisfy
+
+
 def _uf_value(name, argv):
     import hashlib
     h = int.from_bytes(hashlib.sha256((name + repr(argv)).encode()).digest()[:4], 'little')
@@ -391,6 +395,11 @@ def evaluate_all(roots, env, approx=False):
                     if rn < 0 or rn * rn != f.numerator or rd * rd != f.denominator:
                         raise KeyError('irrational sqrt')
                     v = Fraction(rn, rd)
+            elif t.args[0] in _REAL_FUNCS:
+                # functions constrained by axioms (exp x exp(-x) = 1, sin^2 + cos^2 = 1, ...): only their true values satisfy them
+                if not approx:
+                    raise KeyError('transcendental value')
+                v = _REAL_FUNCS[t.args[0]](*[float(x) for x in a])
             else:
                 v = _uf_value(t.args[0], tuple(a))
                 if approx:
